@@ -17,6 +17,14 @@ def run(ctx):
     P.C09_grammar_gaps(ctx, "C09.R5", G)
     from rules import symprint
     symprint.comment_order(ctx, "C09.R4", core, G)
+    # "does this member carry comments" looks at both fields: the printers use the answer to choose the comment-preserving layout
+    from lib import hir as H_
+    hc_ = next((f_ for n_, f_ in core.hir.items() if n_.endswith("::has_comments") and "ast::Commented" in n_), None)
+    if hc_ is None:
+        ctx.inst("C09.R1", "Commented::has_comments#both-fields", None, "Commented::has_comments not found", None)
+    else:
+        flds_ = {x_["name"] for x_ in H_.walk(hc_["body"]) if H_.kind(x_) == "Field" and H_.path_local(x_["e"]) == "self"}
+        ctx.inst("C09.R1", "Commented::has_comments#both-fields", {"leading", "trailing"} <= flds_, "fields consulted: %s (a member whose only comment is the one that is not consulted is printed by the comment-dropping single-line layout)" % sorted(flds_), H_.loc(hc_["body"]))
     from rules import panics
     panics.comment_slots_accepted(ctx, "C09.R7", [core, cli, wasm], G)
     panics.comment_text_whole(ctx, "C09.R8", core)
